@@ -496,6 +496,39 @@ fn slow_tcp(rng: &mut Rng, inst: &Instance, bufs: &mut Buffers) -> Result<String
     }
 }
 
+/// A small pass through a real I/O provider for properties that are stated about "the response"
+/// without naming an entry point (C03): the octets a client receives over TCP/UDP must be the
+/// octets `handle_message` produced for that request alone, for which the property's own monitor
+/// has already judged header and question.
+pub fn mini(ctx: &Ctx, rep: &mut Report, prop: &str) {
+    if ctx.is_miri() || ctx.only_case.is_some() {
+        return;
+    }
+    let mut rng = ctx.rng(&format!("{}-io", prop), 0);
+    let tokio_provider = cfg!(feature = "tokio-io") && ctx.shard % 2 == 1;
+    let mut inst = match start_instance(&mut rng, tokio_provider) {
+        Ok(i) => i,
+        Err(_) => {
+            rep.hist("io:provider-not-started");
+            return;
+        }
+    };
+    let mut bufs = Buffers::new(inst.payload);
+    std::thread::sleep(Duration::from_millis(30));
+    for _ in 0..10 {
+        for tcp in [true, false] {
+            rep.eval();
+            let r = if tcp { tcp_batch(&mut rng, &inst, &mut bufs) } else { udp_batch(&mut rng, &inst, &mut bufs) };
+            match r {
+                Ok(class) => rep.class(&format!("io:{}:{}", inst.kind.split(':').next().unwrap_or(""), class)),
+                Err((sig, _, _)) if sig == "inconclusive" || sig == "tcp:responses-lost-on-abortive-close" => rep.hist("io:not-judged"),
+                Err((sig, detail, w)) => rep.violation(format!("{}:io:{}:{}", prop, inst.kind.split(':').next().unwrap_or(""), sig), format!("through the I/O provider: {} [{}]", detail, inst.kind), w),
+            }
+        }
+    }
+    let _ = inst.stop();
+}
+
 pub fn run(ctx: &Ctx, rep: &mut Report) {
     let instances = ctx.cases(32, 160);
     let batches = if ctx.thorough { 60 } else { 12 };
